@@ -160,6 +160,20 @@ def rows_rules(ctx, w, S, direct_mut, direct_mark):
                     ok, why = shared.footprint_covered(w, f, info[1], mk, rows_t)
                 if ok is None:
                     continue
+                if not ok:
+                    # the operand-matching form could not establish it (e.g. mode and range selected together by one match):
+                    # decide it semantically - evaluate the handler on a small symbolic screen for every parameter value and
+                    # cursor position and compare the rows it changes with the rows it marks
+                    try:
+                        from rules import hinterp
+                        import hir as _H
+                        ok2, info2 = hinterp.marks_cover_changes(w, S, shared.roles(w), f)
+                        if ok2:
+                            ok = True
+                        else:
+                            why = why + "; " + str(info2)
+                    except Exception as ex:      # outside the interpreter's fragment: the structural verdict stands
+                        why = why + " (semantic evaluation not possible: %s)" % (ex,)
                 ctx.check(ok, rule, subj, "%s: %s" % (f, why), loc=loc,
                           sample={"fn": f, "mutation": shared.info_str(w, f, info), "mark": shared.mk_str(w, f, mk)})
     ctx.floor("M2", 10, "mutation/mark operand pairs")
